@@ -114,11 +114,11 @@ def apply_call(comp, call):
     GuardedLog.armed = True
     try:
         if kind == 'add':
-            comp.add_jumper(bib=arg, order=BIBS.index(arg) + 1)
+            comp.add_jumper(bib=benc(arg), order=BIBS.index(arg) + 1)
         elif kind == 'bar':
             comp.set_bar_height(enc(arg))
         else:
-            getattr(comp, LETTER[kind])(arg)
+            getattr(comp, LETTER[kind])(benc(arg))
         return None
     except Exception as e:     # noqa - every exception type is of interest
         return e
@@ -129,10 +129,10 @@ def apply_call(comp, call):
 def log_entry(call):
     kind, arg = call
     if kind == 'add':
-        return ('add_jumper', dict(bib=arg, order=BIBS.index(arg) + 1))
+        return ('add_jumper', dict(bib=benc(arg), order=BIBS.index(arg) + 1))
     if kind == 'bar':
         return ('set_bar_height', enc(arg))
-    return (LETTER[kind], arg)
+    return (LETTER[kind], benc(arg))
 
 
 # ------------------------------------------------------------------------------------------------
@@ -157,17 +157,17 @@ def _cv(v, jid):
 def internal(comp, with_log=False):
     """Canonical *internal* snapshot by reflection: every instance attribute of the competition and of
     every jumper (finer than the observable on purpose).  The log is left out unless asked for."""
-    jid = {id(j): j.bib for j in comp.jumpers}
+    jid = {id(j): bdec(j.bib) for j in comp.jumpers}
     d = comp.__dict__
     top = tuple((k, _cv(d[k], jid)) for k in sorted(d) if k != 'actions')
-    js = tuple((j.bib, tuple((k, _cv(v, jid)) for k, v in sorted(j.__dict__.items()))) for j in comp.jumpers)
+    js = tuple((bdec(j.bib), tuple((k, _cv(v, jid)) for k, v in sorted(j.__dict__.items()))) for j in comp.jumpers)
     if with_log:
         return (top, js, _cv(comp.actions.plain() if isinstance(comp.actions, GuardedLog) else comp.actions, jid))
     return (top, js)
 
 
 def cards_of(comp):
-    return {j.bib: strip_card(j.attempts_by_height) for j in comp.jumpers}
+    return {bdec(j.bib): strip_card(j.attempts_by_height) for j in comp.jumpers}
 
 
 # height codec: the model and the alphabet work with small integers k (only the order of heights matters to the rules); what is passed to the
@@ -188,6 +188,12 @@ def set_codec(name):
         enc = {k: base + Decimal(k) / 100 for k in ks}
     elif name == 'decimal-mm':      # 5 mm steps as three-place Decimals (pole vault bars in imperial conversions)
         enc = {k: Decimal('2.270') + Decimal(k) * 5 / 1000 for k in ks}
+    elif name == 'decimal-10m':     # 1 cm steps crossing 10 metres: 9.99, 10.00, 10.01 (pole vault in feet; label width and text order change)
+        enc = {k: Decimal('9.97') + Decimal(k) / 100 for k in ks}
+    elif name == 'decimal-1m':      # 1 cm steps crossing 1 metre: 0.99, 1.00, 1.01
+        enc = {k: Decimal('0.97') + Decimal(k) / 100 for k in ks}
+    elif name == 'int':             # whole numbers as ints (bars counted in centimetres)
+        enc = {k: 200 + 5 * k for k in ks}
     else:
         raise HarnessError('unknown height codec %r' % name)
     CODEC = (name, enc, {round(float(v), 6): k for k, v in enc.items()})
@@ -197,8 +203,40 @@ def enc(k):
     return Decimal(k) if CODEC is None else CODEC[1][int(k)]
 
 
+# bib codec: the alphabet names the athletes 'A'..'G'; what is passed to the API can be another type (observables are decoded back)
+BIBCODEC = None     # (name, {name: api value}, {api value or its str(): name})
+_INT_BIBS = {'A': 81, 'B': 53, 'C': 7, 'D': 2197, 'E': 2878, 'F': 10, 'G': 9}
+
+
+def set_bibs(name):
+    global BIBCODEC
+    if name is None:
+        BIBCODEC = None
+    elif name == 'int':
+        d = {}
+        for k, v in _INT_BIBS.items():
+            d[v] = k
+            d[str(v)] = k
+        BIBCODEC = (name, dict(_INT_BIBS), d)
+    else:
+        raise HarnessError('unknown bib codec %r' % name)
+
+
+def benc(b):
+    return b if BIBCODEC is None else BIBCODEC[1].get(b, b)
+
+
+def bdec(x):
+    if BIBCODEC is None:
+        return x
+    try:
+        return BIBCODEC[2].get(x, x)
+    except TypeError:
+        return x
+
+
 def hnum(h):
-    if CODEC is not None and not isinstance(h, int):
+    if CODEC is not None and not (isinstance(h, int) and abs(h) < 100):     # small ints are the model's own k
         k = CODEC[2].get(round(float(h), 6))
         if k is not None:
             return k
@@ -211,20 +249,20 @@ def observable(comp, with_trials=False):
     o = dict(state=comp.state,
              heights=[hnum(h) for h in comp.heights],
              bar=hnum(comp.bar_height),
-             cards={j.bib: strip_card(j.attempts_by_height) for j in comp.jumpers},
-             best={j.bib: hnum(j.highest_cleared) for j in comp.jumpers},
-             place={j.bib: j.place for j in comp.jumpers},
-             remaining=sorted(j.bib for j in comp.remaining),
-             eliminated=sorted(j.bib for j in comp.eliminated),
+             cards={bdec(j.bib): strip_card(j.attempts_by_height) for j in comp.jumpers},
+             best={bdec(j.bib): hnum(j.highest_cleared) for j in comp.jumpers},
+             place={bdec(j.bib): j.place for j in comp.jumpers},
+             remaining=sorted(bdec(j.bib) for j in comp.remaining),
+             eliminated=sorted(bdec(j.bib) for j in comp.eliminated),
              finished=comp.is_finished, running=comp.is_running)
     if with_trials:
-        o['trials'] = [(b, hnum(h) if h is not None else None, r) for (b, h, r) in comp.trials]
-        o['trial_objs'] = [(t.bib, hnum(t.height) if t.height is not None else None, t.result) for t in comp.trial_objs]
+        o['trials'] = [(bdec(b), hnum(h) if h is not None else None, r) for (b, h, r) in comp.trials]
+        o['trial_objs'] = [(bdec(t.bib), hnum(t.height) if t.height is not None else None, t.result) for t in comp.trial_objs]
     return o
 
 
 def card_key(comp):
-    return (tuple(hnum(h) for h in comp.heights), tuple((j.bib, tuple(strip_card(j.attempts_by_height))) for j in comp.jumpers))
+    return (tuple(hnum(h) for h in comp.heights), tuple((bdec(j.bib), tuple(strip_card(j.attempts_by_height))) for j in comp.jumpers))
 
 
 # ------------------------------------------------------------------------------------------------
@@ -416,7 +454,7 @@ def expand(pick, model, bounds, hist_fn=None):
             # in the fringe the model only tracks cards/heights; follow the implementation's phase
             m2.phase = comp.state
             if comp.state == 'jumpoff':
-                m2.jo_alive = tuple(j.bib for j in comp.remaining)
+                m2.jo_alive = tuple(bdec(j.bib) for j in comp.remaining)
         succ.append((call, pickle.dumps(comp, 4), m2))
     # read-only queries: where one leaves the object changed, the changed object is a state of its own (explored with all checks,
     # the rules being unaffected by a query), at most QUERY_STEPS such steps along one history
@@ -729,7 +767,7 @@ class Deep(object):
                 if sum(1 for v in self.viol if v[0] == sig) < 5:
                     self.viol.append((sig, list(hist), msg))
                 self.stats['viol'] = self.stats.get('viol', 0) + 1
-            self.outcomes.add((comp.state, tuple(sorted((b, str(j.place)) for b, j in comp.jumpers_by_bib.items()))))
+            self.outcomes.add((comp.state, tuple(sorted((b, str(j.place)) for b, j in ((bdec(k_), v_) for k_, v_ in comp.jumpers_by_bib.items())))))
 
     def start(self):
         comp, model = new_comp(), Model()
